@@ -6,6 +6,7 @@ For every generated call the future's result is compared with calling the functi
 process.  Results carry a unique tag so that a swapped reply cannot go unnoticed."""
 from __future__ import annotations
 
+import collections
 import functools
 import json
 import os
@@ -31,19 +32,61 @@ def canon(x):
     if isinstance(x, complex):
         return ("complex", repr(x))
     if isinstance(x, (list, tuple)):
-        return (type(x).__name__, [canon(y) for y in x])
+        # the exact class counts (namedtuple and other subclasses must arrive as what they are)
+        return (type(x).__name__, [canon(y) for y in x], list(getattr(x, "_fields", ())))
     if isinstance(x, (set, frozenset)):
         return (type(x).__name__, sorted(json.dumps(canon(y), sort_keys=True, default=str) for y in x))
     if isinstance(x, dict):
-        return ("dict", [[canon(k), canon(v)] for k, v in x.items()])
+        # the exact class counts (OrderedDict, defaultdict with its factory, Counter, user subclasses)
+        extra = [getattr(getattr(x, "default_factory", None), "__name__", None)] if hasattr(x, "default_factory") else []
+        return (type(x).__name__, [[canon(k), canon(v)] for k, v in x.items()], *extra)
+    if isinstance(x, collections.deque):
+        return ("deque", [canon(y) for y in x], x.maxlen)
     if hasattr(x, "__dict__"):
         return ("obj", type(x).__name__, canon(vars(x)))
     return ("repr", repr(x))
 
 
+Point = collections.namedtuple("Point", ["x", "y"])
+
+
+class TaggedList(list):
+    pass
+
+
+class Registry(dict):
+    pass
+
+
+def gen_subclass_value(rng, depth):
+    """Instances of subclasses of tuple / dict / list (they must reach the function as what they are)."""
+    k = rng.randrange(8)
+    if k == 0:
+        return Point(gen_value(rng, depth + 1), rng.randrange(100))
+    if k == 1:
+        dyn = collections.namedtuple("Dyn%d" % rng.randrange(1000), ["a", "b", "c"])     # class created at run time
+        return dyn(rng.randrange(9), "s", gen_value(rng, depth + 1))
+    if k == 2:
+        return collections.OrderedDict((("k%d" % i), gen_value(rng, depth + 1)) for i in rng.sample(range(6), k=rng.randrange(0, 4)))
+    if k == 3:
+        d = collections.defaultdict(rng.choice([int, list, str]))
+        for i in range(rng.randrange(0, 3)):
+            d["d%d" % i] = rng.randrange(9)
+        return d
+    if k == 4:
+        return collections.Counter(rng.choice("abcab") for _ in range(rng.randrange(0, 6)))
+    if k == 5:
+        return TaggedList(gen_value(rng, depth + 1) for _ in range(rng.randrange(0, 3)))
+    if k == 6:
+        return Registry(a=gen_value(rng, depth + 1), b=rng.randrange(9))
+    return collections.deque([rng.randrange(9) for _ in range(rng.randrange(0, 4))], maxlen=rng.choice([None, 5]))
+
+
 def gen_value(rng, depth=0):
     import numpy as np
 
+    if rng.random() < (0.12 if depth < 2 else 0.0):
+        return gen_subclass_value(rng, depth)
     r = rng.random()
     if depth > 2:
         r *= 0.55
